@@ -43,11 +43,11 @@ def fwdEnd (o : Opt) : List BoF → Bool → Run
         | some f => Run.pre (f ++ lineJoiner o t) (fwdEnd o t false)
         | none => Run.fail
 
-/-- the read loop of `cut_lines_forward_only`; `read_line` (LF mode) insists on UTF-8 -/
+/-- the read loop of `cut_lines_forward_only`; the line reader insists on UTF-8 (both EOLs) -/
 def fwdLines (o : Opt) : List Bytes → Int → List BoF → Bool → Run
   | [], _, rest, addNl => fwdEnd o rest addNl
   | line :: t, idx, rest, addNl =>
-    if o.eol = .newline && !validUtf8 line then Run.fail
+    if !validUtf8 line then Run.fail
     else
       let (w, rest', a) := fwdLine o line (idx + 1) rest addNl
       if rest'.isEmpty then Run.ok (w ++ [o.eol.byte])
